@@ -44,6 +44,26 @@ DIRECTED = [
     ('resume', 1, [('Accept', 0, 'valid', 0), ('Ready', 1, '', 0), ('Notify', 1, 'tx', 0), ('Notify', 2, 'upd', 0), ('Notify', 2, 'tx', 0), ('Notify', 4, 'tx', 0),
                    ('Drop', 0, '', 0), ('Notify', 3, 'tx', 0), ('Accept', 0, 'valid', 0), ('Ready', 3, '', 0), ('Notify', 2, 'tx', 0), ('Notify', 3, 'upd', 0),
                    ('Notify', 4, 'tx', 0), ('Notify', 3, 'insync', 0), ('Notify', 5, 'hdrs', 0)]),
+    # the application declares ready before the accept: nothing reaches the handlers until a valid accept, a forged one still ends Run
+    ('early-ready', 1, [('Ready', 1, '', 0), ('Notify', 1, 'tx', 0), ('Notify', 1, 'upd', 0), ('Burst', 7, '', 0), ('Call', 0, 'GetTx', 1), ('Accept', 0, 'valid', 0),
+                        ('Notify', 1, 'tx', 0), ('Notify', 2, 'upd', 0), ('Respond', 0, 'ok', 0)]),
+    ('early-ready-forged', 1, [('Call', 0, 'GetTx', 1), ('Ready', 2, '', 0), ('Notify', 2, 'tx', 0), ('Accept', 0, 'badsig', 0)]),
+    ('early-ready-after-drop', 1, [('Accept', 0, 'valid', 0), ('Ready', 1, '', 0), ('Notify', 1, 'tx', 0), ('Drop', 0, '', 0), ('Ready', 2, '', 0), ('Notify', 2, 'tx', 0),
+                                   ('Notify', 2, 'upd', 0), ('Accept', 0, 'valid', 0), ('Notify', 2, 'tx', 0)]),
+    # calls of different kinds about the same block / the same transaction at the same time: every answer goes to its own kind
+    ('same-block-across-kinds', 1, [('Accept', 0, 'valid', 0), ('Ready', 1, '', 0), ('Call', 0, 'MarkInvalid', 1), ('Call', 1, 'MarkNotInvalid', 1), ('Call', 2, 'GetHeader', 1),
+                                    ('Respond', 1, 'reject', 0), ('Respond', 2, 'ok', 0), ('Respond', 0, 'ok', 0),
+                                    ('Call', 0, 'MarkNotInvalid', 2), ('Call', 1, 'MarkInvalid', 2), ('Call', 2, 'GetHeader', 2),
+                                    ('Respond', 1, 'reject', 0), ('Respond', 2, 'reject', 0), ('Respond', 0, 'reject', 0)]),
+    ('same-tx-across-kinds', 1, [('Accept', 0, 'valid', 0), ('Ready', 1, '', 0), ('Call', 0, 'GetTx', 2), ('Call', 1, 'SendTx', 2), ('Call', 2, 'ReprocessTx', 2),
+                                 ('Respond', 2, 'reject', 0), ('Respond', 1, 'ok', 0), ('Respond', 0, 'ok', 0),
+                                 ('Call', 0, 'ReprocessTx', 3), ('Call', 1, 'GetTx', 3), ('Call', 2, 'SendTx', 3),
+                                 ('Respond', 2, 'reject', 0), ('Respond', 1, 'reject', 0), ('Respond', 0, 'ok', 0)]),
+    # gaps and repeats in the id sequence, for both kinds: only the expected id is delivered, whatever kind carries it
+    ('gaps', 1, [('Accept', 0, 'valid', 0), ('Ready', 1, '', 0), ('Notify', 1, 'tx', 0), ('Notify', 3, 'upd', 0), ('Notify', 3, 'tx', 0), ('Notify', 2, 'upd', 0),
+                 ('Notify', 5, 'upd', 0), ('Notify', 4, 'tx', 0), ('Notify', 1, 'upd', 0), ('Notify', 3, 'tx', 0), ('Notify', 4, 'upd', 0), ('Notify', 6, 'tx', 0),
+                 ('Notify', 5, 'tx', 0), ('Drop', 0, '', 0), ('Accept', 0, 'valid', 0), ('Ready', 6, '', 0), ('Notify', 8, 'upd', 0), ('Notify', 6, 'upd', 0)]),
+    ('gaps-control', 2, [('Accept', 0, 'valid', 0), ('Notify', 2, 'upd', 0), ('Notify', 1, 'upd', 0), ('Notify', 3, 'upd', 0), ('Notify', 2, 'tx', 0), ('Notify', 4, 'upd', 0)]),
     # bursts: headers + tx + update + in-sync in one write, before the accept, after it, after a re-declared Ready and after a reconnect
     ('bursts', 1, [('Burst', 7, '', 0), ('Accept', 0, 'valid', 0), ('Burst', 7, '', 0), ('Ready', 1, '', 0), ('Burst', 7, '', 0), ('Burst', 7, '', 0), ('Notify', 5, 'tx', 0),
                    ('Drop', 0, '', 0), ('Accept', 0, 'valid', 0), ('Ready', 5, '', 0), ('Burst', 7, '', 0)]),
@@ -112,6 +132,14 @@ def gen(chk, thorough):
         for k in range(n):
             ss = pipeline.sim_scripts(chk, 'RemoteClient', 'Sim_RemoteClient.cfg', num=120 if ctname == 'full' else 60, depth=15,
                                       seed=chk.seed * 100 + k, prefix='sim-' + ctname, subst=sub)
+            for s in ss:
+                scripts.append({'id': s['id'], 'ctype': ct, 'steps': s['steps']})
+            # the notification stream: successful handshakes, one call slot, ids around the expected one
+            nsub = dict(sub)
+            nsub.update({'SPECIFICATION SimSpec': 'SPECIFICATION NoteSpec', 'NCalls = 3': 'NCalls = 1', 'Keys <- Keys3': 'Keys <- Keys1',
+                         'MaxSteps = 14': 'MaxSteps = 20', 'MaxNote = 10': 'MaxNote = 14'})
+            ss = pipeline.sim_scripts(chk, 'RemoteClient', 'Sim_RemoteClient.cfg', num=50, depth=21, seed=chk.seed * 100 + 50 + k,
+                                      prefix='note-' + ctname, subst=nsub)
             for s in ss:
                 scripts.append({'id': s['id'], 'ctype': ct, 'steps': s['steps']})
     return scripts + directed()
